@@ -45,7 +45,8 @@ Inductive pc :=
 | MStoreReq             (* store required *)
 | MUnlock               (* unlock *)
 | RLoad                 (* rescheduleCleanUpIfIncomplete: load drainStatus *)
-| Done.
+| Done
+| RdLoad.               (* a reader in afterRead: shouldDrainBuffers loads drainStatus; argument 1 = the read buffer was full *)
 
 Global Instance pc_eq_dec : EqDecision pc.
 Proof. solve_decision. Defined.
@@ -55,14 +56,14 @@ Definition pc_to_nat (p : pc) : nat :=
   | WPush => 0 | WLoad => 1 | WCasReq => 2 | WCasP2R => 3 | SLoad => 4 | STry => 5 | SLoad2 => 6
   | SUnlockRet => 7 | SStore => 8 | SSpawn => 9 | SCas => 10 | SUnlock => 11 | DTry => 12 | DCas => 13
   | DLock => 14 | CLock => 15 | MStore => 16 | MDrain => 17 | MLoad => 18 | MCas => 19 | MStoreReq => 20
-  | MUnlock => 21 | RLoad => 22 | Done => 23
+  | MUnlock => 21 | RLoad => 22 | Done => 23 | RdLoad => 24
   end.
 Definition nat_to_pc (n : nat) : pc :=
   match n with
   | 0 => WPush | 1 => WLoad | 2 => WCasReq | 3 => WCasP2R | 4 => SLoad | 5 => STry | 6 => SLoad2
   | 7 => SUnlockRet | 8 => SStore | 9 => SSpawn | 10 => SCas | 11 => SUnlock | 12 => DTry | 13 => DCas
   | 14 => DLock | 15 => CLock | 16 => MStore | 17 => MDrain | 18 => MLoad | 19 => MCas | 20 => MStoreReq
-  | 21 => MUnlock | 22 => RLoad | _ => Done
+  | 21 => MUnlock | 22 => RLoad | 24 => RdLoad | _ => Done
   end.
 Global Instance pc_countable : Countable pc.
 Proof. apply (inj_countable' pc_to_nat nat_to_pc). intros []; reflexivity. Defined.
@@ -129,6 +130,13 @@ Definition dstep (s : dstate) (i : nat) : option dstate :=
       | MUnlock => go ds false wb RLoad a
       | RLoad => if Nat.eqb ds 1 then go ds lock wb SLoad a else go ds lock wb Done a
       | Done => None
+      | RdLoad =>
+          (* shouldDrainBuffers: idle -> only when the read could not be buffered; required -> yes; processing -> no *)
+          match ds with
+          | 0 => if Nat.eqb a 0 then go ds lock wb Done a else go ds lock wb SLoad a
+          | 1 => go ds lock wb SLoad a
+          | _ => go ds lock wb Done a
+          end
       end
   end.
 
@@ -146,6 +154,10 @@ Definition drained (s : dstate) : bool :=
 
 (* initial configuration: [w] writers about to push, [c] explicit CleanUp callers *)
 Definition dinit (w c : nat) : dstate := mk 0 false 0 (repeat (WPush, 0) w ++ repeat (CLock, 0) c).
+
+(* ... plus [rd] readers whose read is buffered and [rf] readers that find the read buffer full *)
+Definition dinitR (w c rd rf : nat) : dstate :=
+  mk 0 false 0 (repeat (WPush, 0) w ++ repeat (CLock, 0) c ++ repeat (RdLoad, 0) rd ++ repeat (RdLoad, 1) rf).
 
 (* ---- exhaustive exploration *)
 Fixpoint explore (fuel : nat) (frontier : list dstate) (seen : gset dstate) : option (gset dstate) :=
